@@ -144,8 +144,9 @@ static inline void miter_seek(miter_t *mi, const uint8_t *t, size_t lt, const ch
 	free(copy);
 	mi->ops++;
 	STAT("ops.seek");
-	if (res != mtbl_res_success && mi->it)
-		viol(sigf("seek-returned-failure"), "%s %s: seek(%s) returned failure", ctx, bound_str(&mi->bd), hexs(t, lt));
+	/* the statements constrain what the following next returns, not the return value of seek itself (an iterator
+	   wrapping an empty answer may refuse to seek): a failing seek is only counted */
+	if (res != mtbl_res_success) STAT("ops.seek.returned_failure");
 	mi->pos = model_lb(mi->m, t, lt);
 	mi->failed = false;
 }
